@@ -70,7 +70,123 @@ def c33(c):
         'bounded: alphabet and lengths as in spec/PushFrame/%s' % cfg]
 
 
-CHECKS = {'C33': c33}
+# ---------------------------------------------------------------------------------------------- C34
+def c34(c):
+    cfg = 'quick.cfg' if c.tier == 'quick' else 'thorough.cfg'
+    r = c.tlc_exhaustive('RedisKeys', 'RedisKeys', cfg, dump=True, timeout=1500)
+    allrows = flat_rows(c, r)
+    ops = [x for x in allrows if x[0] == 'ops']
+    rows = [x for x in allrows if x[0] not in ('ops', 'seed')]
+    classes = {}
+    for x in rows:
+        k = x[0] + ':' + x[4]
+        classes[k] = classes.get(k, 0) + 1
+    c.log('TLC: %d rows (mode, prefix, lists, channel); every failing operation lies in a named input class and every class fails: %s'
+          % (len(rows), json.dumps(classes, sort_keys=True)))
+    binp = c.go_build('redisfuncs')
+    res = c.harness(binp, 'keys', {'partitions': 16, 'ops': ops, 'rows': rows, 'capture': True}, timeout=1500)
+    c.absorb(res)
+    c.log('replay: %s extra=%s' % (json.dumps(res['counters'], sort_keys=True), json.dumps({k: v for k, v in res['extra'].items()})[:600]))
+    c.log('violation signatures from the real code: %s; drifts: %d' % (sorted(v['sig'] for v in res.get('violations') or []), len(res.get('drifts') or [])))
+    for d in (res.get('drifts') or [])[:5]:
+        c.log('drift: %s' % d['what'])
+    c.cov['traces_validated_against_impl'] = res['completed']
+    c.cov['evaluations'] = res['executed']
+    c.cov['distinct_nontrivial'] = res['nontrivial']
+    c.cov['exhaustive'] = True
+    c.cov['input_classes'] = classes
+    c.cov['replay_counters'] = res['counters']
+    c.cov['replay_extra'] = res['extra']
+    c.cov['rule'] = ('every (mode in plain/cluster/sharded/precomputed, prefix in {default, p, p{, p}, {p}, a{}b}, UseLists, channel over '
+                     "{'{','}','.','a',':'} up to the length of spec/RedisKeys/%s) enumerated by TLC; non-trivial = cluster-mode inputs whose "
+                     'channel contains a brace' % cfg)
+    c.cov['samples'] = res['samples']
+    c.assumptions += [
+        'the engines are built without a connection: RedisBroker / RedisPresenceManager by their real constructors around a RedisShard value, '
+        'RedisMapBroker assembled in the shim from the constructor\'s statements (its constructor starts workers that need the connection)',
+        'per-operation key sets: transcribed in the spec from the call sites AND cross-checked against the commands the real operations build '
+        'on a recording rueidis client (EVALSHA KEYS + the channel argument); the Lua scripts themselves are not executed',
+        'slots by an independent CRC16-XMODEM (bit-serial long division) + hash-tag rule in the harness, self-tested on the vectors of the Redis cluster specification',
+        '16 partitions in the sharded modes; the idempotency key is "i"; bounded channel names and prefixes as in spec/RedisKeys/%s' % cfg]
+
+
+# ---------------------------------------------------------------------------------------------- C35
+def partition_data_module(sizes, tags):
+    """The code's tag tables as a TLA+ data module (tags as byte sequences)."""
+    out = ['---------------------------- MODULE PartitionData ----------------------------',
+           '\\* GENERATED by fam/redisfuncs.py from redispartition.PrecomputedSizes() / FindTags(n) of the checked tree',
+           '\\* (harness/redisfuncs mode dumptags). The copy committed under spec/Partition/ is the pinned commit\'s data',
+           '\\* and is overwritten in the scratch copy of every check run.',
+           'EXTENDS Integers, Sequences', '',
+           'Sizes == <<%s>>' % ', '.join(str(s) for s in sizes), '']
+    cases = []
+    for s in sizes:
+        rows = ['<<%s>>' % ', '.join(str(b) for b in t.encode('utf-8')) for t in tags[str(s)]]
+        body = ',\n     '.join(', '.join(rows[i:i + 8]) for i in range(0, len(rows), 8))
+        cases.append('T%d ==\n  <<%s>>\n' % (s, body))
+    out += cases
+    out.append('Tags == [P \\in {%s} |->\n  %s]' % (', '.join(str(s) for s in sizes),
+               '\n  ELSE '.join('IF P = %d THEN T%d' % (s, s) for s in sizes) + '\n  ELSE <<>>'))
+    out.append('=============================================================================')
+    return '\n'.join(out) + '\n'
+
+
+def c35(c):
+    cfg = 'quick.cfg' if c.tier == 'quick' else 'thorough.cfg'
+    binp = c.go_build('redisfuncs')
+    d = c.harness(binp, 'dumptags', {})
+    c.absorb(d)
+    sizes, tags = d['extra']['sizes'], d['extra']['tags']
+    specdir = c._specdir('Partition')
+    with open(os.path.join(specdir, 'PartitionData.tla'), 'w') as fh:
+        fh.write(partition_data_module(sizes, tags))
+    c.log('code data: sizes %s, %d tags' % (sizes, sum(len(v) for v in tags.values())))
+    r = c.tlc_exhaustive('Partition', 'Partition', cfg, dump=True, timeout=1800)
+    rows = [x for x in flat_rows(c, r) if x[0] != 'seed']
+    nbal = 0
+    for x in rows:
+        if x[0] == 'size':
+            _, p, n, charset, distinct, inorder, slots = x
+            if n != p:
+                c.violation('size:P=%d' % p, 'FindTags(%d) returns %d tags' % (p, n), {'size': p, 'tags': tags[str(p)][:8]})
+            if not charset:
+                c.violation('charset:P=%d' % p, 'a tag of size %d is empty or has a character outside [a-z0-9] (a brace breaks the hash tag, a dot extractChannel): %r'
+                            % (p, [t for t in tags[str(p)] if not re.fullmatch('[a-z0-9]+', t)][:5]), {'size': p})
+            if not distinct:
+                dup = sorted(s for s in set(slots) if slots.count(s) > 1)
+                c.violation('distinct:P=%d' % p, 'size %d: tags share a Redis hash slot: %r' % (p, [(tags[str(p)][i], s) for s in dup[:3] for i in range(len(slots)) if slots[i] == s]), {'size': p})
+            if not inorder:
+                c.notes.append('size %d: the table is not stored in slot order' % p)
+        elif x[0] == 'bal':
+            _, p, k, lo, hi, mn, mx = x
+            nbal += 1
+            if mx - mn > 1 or mn < lo or mx > hi:
+                c.violation('balance:P=%d' % p, 'size %d on a cluster of %d masters: per-node partition counts range over [%d,%d], balanced would be [%d,%d]'
+                            % (p, k, mn, mx, lo, hi), {'size': p, 'k': k})
+    c.log('TLC: %d sizes, %d (P,k) balance rows evaluated on the code\'s tables' % (len(sizes), nbal))
+    res = c.harness(binp, 'partition', {'rows': rows}, timeout=1500)
+    c.absorb(res)
+    c.log('replay: %s extra=%s' % (json.dumps(res['counters'], sort_keys=True), json.dumps(res['extra'])[:500]))
+    c.cov['traces_validated_against_impl'] = res['completed']
+    c.cov['evaluations'] = res['executed'] + res['counters'].get('slot_to_node_checked', 0)
+    c.cov['distinct_nontrivial'] = res['nontrivial']
+    c.cov['exhaustive'] = True
+    c.cov['sizes'] = sizes
+    c.cov['balance_pairs_by_tlc'] = nbal
+    c.cov['balance_pairs_by_harness_sweep'] = res['counters'].get('balance_pairs_by_harness_sweep', 0)
+    c.cov['rediscli_float_split_information'] = res['extra'].get('rediscli_float_split')
+    c.cov['rule'] = ('every precomputed size P of the code and the cluster sizes k <= P selected by spec/Partition/%s (quick: all k for P <= 256, a stride for larger P; '
+                     'thorough: all k); the remaining (P,k) are swept by the harness with the same assignment formula, cross-checked against TLC on sampled k; '
+                     'non-trivial = (P,k) rows and sizes' % cfg)
+    c.cov['samples'] = [{'size': x[1], 'k': x[2], 'floor': x[3], 'ceil': x[4], 'min': x[5], 'max': x[6]} for x in rows if x[0] == 'bal' and x[2] in (3, 7, 100)][:3]
+    c.assumptions += [
+        'the slot assignment of a k-master cluster is the even contiguous split the package documents (first 16384 mod k nodes own one more slot); '
+        'redis-cli --cluster create rounds boundaries with float arithmetic - reported as information, not judged',
+        'TLC decides distinctness and balance on the code\'s dumped tables; the harness decides TagSlot = spec slot for every tag, SlotToNode = spec assignment '
+        'for every slot and every k <= 4096, and repeats every (P,k) count with the code\'s own functions']
+
+
+CHECKS = {'C33': c33, 'C34': c34, 'C35': c35}
 
 META = {
     'C33': dict(
@@ -79,4 +195,16 @@ META = {
         note='Bounds: see spec/PushFrame/quick.cfg and thorough.cfg (exhaustive short strings over an 11-character alphabet, exhaustive tails after the frame headers, mutants of valid frames). The Lua encoders are transcribed, not executed. Trusted: TLC, the dump reader (cross-checked against lib/tlaparse.py), the harness comparison.',
         technique='TLA+ grammar (Encode / total Decode) + TLC exhaustive enumeration; function-table replay into extractPushData with recover()',
         design_ref='DESIGN.md 4.4, 8 (C33), 9, 10 item 5'),
+    'C34': dict(
+        level='model_checking',
+        text='The Redis Cluster hash-tag rule and the key / channel builders of the stream broker, the map broker and the presence manager are transcribed into TLA+ for the four deployment modes (plain, cluster, sharded PUB/SUB with numeric or precomputed partition tags), together with the key set every script call receives. TLC evaluates, for every bounded (mode, prefix, channel), whether all keys of each operation carry the same hash tag and whether extractChannel(messageChannelID(ch)) = ch, and proves that every failure lies in a named input class. Every row is replayed into the real builders (engines constructed without a connection); slots are computed by an independent CRC16 + hash-tag implementation, the real operations are additionally run against a recording rueidis client to obtain the actual KEYS of each EVALSHA.',
+        note='Bounds: channel names up to 3 (quick) / 4 (thorough) characters over { } . a :, six prefixes, 16 partitions. Unsound input classes of the design are reported with signatures mode:operation:class. Trusted: TLC, the dump reader, the harness slot function (self-tested on the Redis specification vectors).',
+        technique='TLA+ transcription of key builders and hash-tag rule + TLC exhaustive enumeration; function-table replay into the real builders and command capture on a recording client',
+        design_ref='DESIGN.md 4.4, 8 (C34), 10 item 10'),
+    'C35': dict(
+        level='model_checking',
+        text='The precomputed partition tag tables are dumped from the code (PrecomputedSizes / FindTags) into a generated TLA+ data module and validated against an independent oracle: CRC16-XMODEM written as bit-serial polynomial division (Bitwise xor, no table), slot = crc mod 16384, and the even contiguous slot-to-node assignment of a k-master cluster. TLC computes, per supported size, the slots, their pairwise distinctness and the tag character set, and per (size, cluster size) the minimum and maximum per-node partition count; rows that falsify the property are violations. The Go harness compares the spec slot of every tag with the code\'s TagSlot, the assignment with SlotToNode for every slot and every cluster size up to 4096, and recomputes every (P,k) count with the code\'s functions.',
+        note='quick: all cluster sizes for P <= 256, strided for 512..4096 in TLC and all remaining (P,k) by the harness sweep with the same formula; thorough: every (P,k), k <= P, in TLC. Trusted: TLC + the Bitwise module override, the generated data module writer, the harness.',
+        technique='code data dumped into a TLA+ data module + TLC evaluation of an independent CRC16 / slot-assignment oracle; table comparison with TagSlot / SlotToNode in the Go harness',
+        design_ref='DESIGN.md 4.4, 8 (C35)'),
 }
